@@ -305,23 +305,23 @@ Definition pair_ok (s : pair) (o : pop) : Prop :=
 (* pairX_sock_send validates the message before it takes the lock (raw PAIRv1 only can refuse) *)
 Definition pair_cls (k : pkind) (m : pmsg) : bool := match norm_send k m with Some _ => true | None => false end.
 Definition pair_inv (s : pair) : Prop := PairProofs.PInv s /\ PairProofs.RInv s /\ PairProofs.WInv s.
-Definition M_pair (k : pkind) (fx fs : bool) : pmodel :=
-  mkPM pair pair_init (pair_step_g k fx fs) pair_poll pair_ok pair_inv pair_busy (pair_cls k).
+Definition M_pair (k : pkind) (fx fr fs : bool) : pmodel :=
+  mkPM pair pair_init (pair_step_g k fx fr fs) pair_poll pair_ok pair_inv pair_busy (pair_cls k).
 
-Lemma pair_inv_init k fx fs : pm_inv (M_pair k fx fs) (pm_init (M_pair k fx fs)).
+Lemma pair_inv_init k fx fr fs : pm_inv (M_pair k fx fr fs) (pm_init (M_pair k fx fr fs)).
 Proof. exact PairProofs.pair_init_inv. Qed.
-Lemma pair_inv_step k fs s o :
-  pm_inv (M_pair k true fs) s -> pm_ok (M_pair k true fs) s o -> o <> PSockClose ->
-  pm_inv (M_pair k true fs) (fst (pm_step (M_pair k true fs) s o)).
+Lemma pair_inv_step k fr fs s o :
+  pm_inv (M_pair k true fr fs) s -> pm_ok (M_pair k true fr fs) s o -> o <> PSockClose ->
+  pm_inv (M_pair k true fr fs) (fst (pm_step (M_pair k true fr fs) s o)).
 Proof.
-  unM M_pair. intros (HI & HR & HW) [Hok _] Hns. rewrite (PairGuardProofs.pair_step_g_contract k true fs s o Hok).
-  destruct (pair_step k true s o) as [s' outs] eqn:E. cbn [fst].
-  destruct (PairProofs.pair_step_law k true _ _ _ _ HI Hok E) as [HI' _].
+  unM M_pair. intros (HI & HR & HW) [Hok _] Hns. rewrite (PairGuardProofs.pair_step_g_contract k true fr fs s o Hok).
+  destruct (pair_step k true fr s o) as [s' outs] eqn:E. cbn [fst].
+  destruct (PairProofs.pair_step_law k true fr _ _ _ _ HI Hok E) as [HI' _].
   split; [exact HI'|split].
-  - exact (PairProofs.pair_readable_mirror k true _ _ _ _ HI Hok Hns HR E).
-  - exact (PairProofs.pair_writable_mirror k true _ _ _ _ HI Hok Hns (or_introl eq_refl) HW E).
+  - exact (PairProofs.pair_readable_mirror k true fr _ _ _ _ HI Hok Hns HR E).
+  - exact (PairProofs.pair_writable_mirror k true fr _ _ _ _ HI Hok Hns (or_introl eq_refl) HW E).
 Qed.
-Theorem pair_c15_inv k fs : C15_inv (M_pair k true fs).
+Theorem pair_c15_inv k fr fs : C15_inv (M_pair k true fr fs).
 Proof. apply reachable_inv; [apply pair_inv_init|apply pair_inv_step]. Qed.
 
 Ltac psend_open s k m :=
@@ -340,7 +340,7 @@ Lemma compl_of_rearm a (po : option pid) : compl_of a (match po with Some p => [
 Proof. destruct po; reflexivity. Qed.
 
 (* ---- clause 1 (holds whatever the flags) ---- *)
-Lemma pair_nb_send_immediate k fx fs s : nb_send_immediate_at (M_pair k fx fs) s.
+Lemma pair_nb_send_immediate k fx fr fs s : nb_send_immediate_at (M_pair k fx fr fs) s.
 Proof.
   intros c a m s' outs [_ Hb] H. unM M_pair. unfold pair_cls. psend_open s k m; inversion H; subst; clear H.
   - exists E_OK. rewrite compl_of_cons, compl_of_self. cbn [app]. rewrite compl_of_TranSend. busy_same.
@@ -352,7 +352,7 @@ Proof.
   - exists E_PROTO. rewrite compl_of_self. repeat split; auto. intros _ m2 Hc.
     cbn [pair_step_g pair_step]. destruct (norm_send k m2); [discriminate|reflexivity].
 Qed.
-Lemma pair_nb_recv_immediate k fx fs s : nb_recv_immediate_at (M_pair k fx fs) s.
+Lemma pair_nb_recv_immediate k fx fr fs s : nb_recv_immediate_at (M_pair k fx fr fs) s.
 Proof.
   intros c a s' outs [_ Hb] H. unM M_pair. precv_open s; inversion H; subst; clear H.
   - exists E_OK, (Some h). rewrite compl_of_cons, compl_of_self, compl_of_rearm. busy_same.
@@ -364,21 +364,21 @@ Proof.
 Qed.
 
 (* ---- clause 2 (holds whatever the flags) ---- *)
-Lemma pair_nb_send_possible k fx fs s : nb_send_possible_at (M_pair k fx fs) s.
+Lemma pair_nb_send_possible k fx fr fs s : nb_send_possible_at (M_pair k fx fr fs) s.
 Proof.
   intros c a m _ H. unM M_pair. psend_open s k m; try reflexivity. cbn [snd] in H. discriminate.
 Qed.
-Lemma pair_nb_recv_possible k fx fs s : nb_recv_possible_at (M_pair k fx fs) s.
+Lemma pair_nb_recv_possible k fx fr fs s : nb_recv_possible_at (M_pair k fx fr fs) s.
 Proof.
   intros c a _ H. unM M_pair. precv_open s; try reflexivity. cbn [snd] in H. discriminate.
 Qed.
-Lemma pair_nb_send_strict k fx fs s : nb_send_eagain_queues_at (M_pair k fx fs) s.
+Lemma pair_nb_send_strict k fx fr fs s : nb_send_eagain_queues_at (M_pair k fx fr fs) s.
 Proof.
   intros c a m _ H. unM M_pair. psend_open s k m; cbn [fst snd] in *;
     try (rewrite result_of_self in H; errs; discriminate).
   split; [reflexivity|]. busy_same. rewrite map_app. apply in_or_app. left. apply in_or_app. right. now left.
 Qed.
-Lemma pair_nb_recv_strict k fx fs s : nb_recv_eagain_queues_at (M_pair k fx fs) s.
+Lemma pair_nb_recv_strict k fx fr fs s : nb_recv_eagain_queues_at (M_pair k fx fr fs) s.
 Proof.
   intros c a _ H. unM M_pair. precv_open s; cbn [fst snd] in *;
     try (rewrite result_of_self in H; errs; discriminate).
@@ -390,50 +390,50 @@ Ltac mir_w HW := unM M_pair; unfold rv_send; unM M_pair; cbn [pair_poll poll_w];
   unfold PairProofs.WInv, PairProofs.can_send in HW; rewrite HW.
 Ltac mir_r HR := unM M_pair; unfold rv_recv; unM M_pair; cbn [pair_poll poll_r];
   unfold PairProofs.RInv, PairProofs.can_recv in HR; rewrite HR.
-Lemma pair_mirror_w_exact k fx fs s : pm_inv (M_pair k fx fs) s -> mirror_w_exact_at (M_pair k fx fs) s.
+Lemma pair_mirror_w_exact k fx fr fs s : pm_inv (M_pair k fx fr fs) s -> mirror_w_exact_at (M_pair k fx fr fs) s.
 Proof.
   intros (HI & HR & HW) a m _ Hc. mir_w HW. unfold pair_cls in Hc.
   psend_open s k m; try discriminate; cbn [orb negb fst snd]; rewrite result_of_self; errs; split; intros X; congruence.
 Qed.
-Lemma pair_mirror_w_iff k fx fs s : pm_inv (M_pair k fx fs) s -> mirror_w_iff_at (M_pair k fx fs) s.
+Lemma pair_mirror_w_iff k fx fr fs s : pm_inv (M_pair k fx fr fs) s -> mirror_w_iff_at (M_pair k fx fr fs) s.
 Proof.
   intros (HI & HR & HW) a m _ Hc. mir_w HW. unfold pair_cls in Hc.
   psend_open s k m; try discriminate; cbn [orb negb fst snd]; rewrite result_of_self; errs; split; intros X;
     try congruence; try discriminate; try (now elim X).
 Qed.
-Lemma pair_mirror_r_exact_R k fx fs s : PairProofs.RInv s -> mirror_r_exact_at (M_pair k fx fs) s.
+Lemma pair_mirror_r_exact_R k fx fr fs s : PairProofs.RInv s -> mirror_r_exact_at (M_pair k fx fr fs) s.
 Proof.
   intros HR a _. mir_r HR.
   precv_open s; cbn [isnil orb negb fst snd]; rewrite result_of_self; errs; split; intros X; congruence.
 Qed.
-Lemma pair_mirror_r_iff_R k fx fs s : PairProofs.RInv s -> mirror_r_iff_at (M_pair k fx fs) s.
+Lemma pair_mirror_r_iff_R k fx fr fs s : PairProofs.RInv s -> mirror_r_iff_at (M_pair k fx fr fs) s.
 Proof.
   intros HR a _. mir_r HR.
   precv_open s; cbn [isnil orb negb fst snd]; rewrite result_of_self; errs; split; intros X;
     try congruence; try discriminate; try (now elim X).
 Qed.
-Lemma pair_mirror_r_exact k fx fs s : pm_inv (M_pair k fx fs) s -> mirror_r_exact_at (M_pair k fx fs) s.
+Lemma pair_mirror_r_exact k fx fr fs s : pm_inv (M_pair k fx fr fs) s -> mirror_r_exact_at (M_pair k fx fr fs) s.
 Proof. intros (_ & HR & _). now apply pair_mirror_r_exact_R. Qed.
-Lemma pair_mirror_r_iff k fx fs s : pm_inv (M_pair k fx fs) s -> mirror_r_iff_at (M_pair k fx fs) s.
+Lemma pair_mirror_r_iff k fx fr fs s : pm_inv (M_pair k fx fr fs) s -> mirror_r_iff_at (M_pair k fx fr fs) s.
 Proof. intros (_ & HR & _). now apply pair_mirror_r_iff_R. Qed.
 
-Theorem pair_c15_nb_immediate k fx fs : C15_nb_immediate (M_pair k fx fs).
+Theorem pair_c15_nb_immediate k fx fr fs : C15_nb_immediate (M_pair k fx fr fs).
 Proof. intros s _. split; [apply pair_nb_send_immediate|apply pair_nb_recv_immediate]. Qed.
-Theorem pair_c15_nb_possible k fx fs : C15_nb_possible (M_pair k fx fs).
+Theorem pair_c15_nb_possible k fx fr fs : C15_nb_possible (M_pair k fx fr fs).
 Proof. intros s _. split; [apply pair_nb_send_possible|apply pair_nb_recv_possible]. Qed.
-Theorem pair_c15_nb_strict k fx fs : C15_nb_strict (M_pair k fx fs).
+Theorem pair_c15_nb_strict k fx fr fs : C15_nb_strict (M_pair k fx fr fs).
 Proof. intros s _. split; [apply pair_nb_send_strict|apply pair_nb_recv_strict]. Qed.
-Theorem pair_c15_mirror_exact k fs : C15_mirror_exact (M_pair k true fs).
+Theorem pair_c15_mirror_exact k fr fs : C15_mirror_exact (M_pair k true fr fs).
 Proof.
-  exact (lift_at2 _ (pair_inv_init _ _ _) (pair_inv_step _ _) _ _ (pair_mirror_r_exact _ _ _) (pair_mirror_w_exact _ _ _)).
+  exact (lift_at2 _ (pair_inv_init _ _ _ _) (pair_inv_step _ _ _) _ _ (pair_mirror_r_exact _ _ _ _) (pair_mirror_w_exact _ _ _ _)).
 Qed.
-Theorem pair_c15_mirror_iff k fs : C15_mirror_iff (M_pair k true fs).
+Theorem pair_c15_mirror_iff k fr fs : C15_mirror_iff (M_pair k true fr fs).
 Proof.
-  exact (lift_at2 _ (pair_inv_init _ _ _) (pair_inv_step _ _) _ _ (pair_mirror_r_iff _ _ _) (pair_mirror_w_iff _ _ _)).
+  exact (lift_at2 _ (pair_inv_init _ _ _ _) (pair_inv_step _ _ _) _ _ (pair_mirror_r_iff _ _ _ _) (pair_mirror_w_iff _ _ _ _)).
 Qed.
-Theorem pair_c15_mirror k fs : C15_mirror (M_pair k true fs).
+Theorem pair_c15_mirror k fr fs : C15_mirror (M_pair k true fr fs).
 Proof.
-  intros s R. destruct (pair_c15_mirror_exact k fs s R) as [A B].
+  intros s R. destruct (pair_c15_mirror_exact k fr fs s R) as [A B].
   split; [now apply mirror_r_exact_weaken|now apply mirror_w_exact_weaken].
 Qed.
 
@@ -441,107 +441,107 @@ Qed.
    witness (PairProofs.poll_w_witness): send buffer 2, a peer attaches and goes away; the descriptor stays
    lowered although a NONBLOCK send succeeds (a missed wake-up) *)
 Definition pair_wit_msg : pmsg := mkPmsg [0; 0; 0; 0]%N [1%N].
-Lemma pair_wit_reachable k fs :
-  reachable (M_pair k false fs) (prun (M_pair k false fs) pair_init (PairProofs.poll_w_witness k)).
+Lemma pair_wit_reachable k fr fs :
+  reachable (M_pair k false fr fs) (prun (M_pair k false fr fs) pair_init (PairProofs.poll_w_witness k)).
 Proof.
   exists (PairProofs.poll_w_witness k). split; [|reflexivity].
-  destruct k as [|[]]; destruct fs; vm_compute; repeat split; try exact I; try discriminate; tauto.
+  destruct k as [|[]]; destruct fr; destruct fs; vm_compute; repeat split; try exact I; try discriminate; tauto.
 Qed.
-Theorem pair_c15_mirror_w_refuted_pinned k fs : ~ C15_mirror_w (M_pair k false fs).
+Theorem pair_c15_mirror_w_refuted_pinned k fr fs : ~ C15_mirror_w (M_pair k false fr fs).
 Proof.
-  intros H. specialize (H _ (pair_wit_reachable k fs) 7%N pair_wit_msg).
-  assert (Hok : pm_ok (M_pair k false fs) (prun (M_pair k false fs) pair_init (PairProofs.poll_w_witness k))
+  intros H. specialize (H _ (pair_wit_reachable k fr fs) 7%N pair_wit_msg).
+  assert (Hok : pm_ok (M_pair k false fr fs) (prun (M_pair k false fr fs) pair_init (PairProofs.poll_w_witness k))
                       (PSend None 7%N true pair_wit_msg)).
-  { destruct k as [|[]]; destruct fs; vm_compute; tauto. }
-  assert (Hc : pm_cls (M_pair k false fs) pair_wit_msg = true) by (destruct k as [|[]]; reflexivity).
+  { destruct k as [|[]]; destruct fr; destruct fs; vm_compute; tauto. }
+  assert (Hc : pm_cls (M_pair k false fr fs) pair_wit_msg = true) by (destruct k as [|[]]; reflexivity).
   specialize (H Hok Hc). clear Hok Hc.
-  assert (X : poll_w (pm_poll (M_pair k false fs) (prun (M_pair k false fs) pair_init (PairProofs.poll_w_witness k))) = Some false)
-    by (destruct k as [|[]]; destruct fs; reflexivity).
+  assert (X : poll_w (pm_poll (M_pair k false fr fs) (prun (M_pair k false fr fs) pair_init (PairProofs.poll_w_witness k))) = Some false)
+    by (destruct k as [|[]]; destruct fr; destruct fs; reflexivity).
   rewrite X in H. destruct H as [H _].
-  assert (Y : rv_send (M_pair k false fs) (prun (M_pair k false fs) pair_init (PairProofs.poll_w_witness k)) 7%N pair_wit_msg = Some E_OK)
-    by (destruct k as [|[]]; destruct fs; vm_compute; reflexivity).
+  assert (Y : rv_send (M_pair k false fr fs) (prun (M_pair k false fr fs) pair_init (PairProofs.poll_w_witness k)) 7%N pair_wit_msg = Some E_OK)
+    by (destruct k as [|[]]; destruct fr; destruct fs; vm_compute; reflexivity).
   specialize (H Y). discriminate.
 Qed.
-Theorem pair_c15_mirror_refuted_pinned k fs : ~ C15_mirror (M_pair k false fs).
-Proof. intros H. apply (pair_c15_mirror_w_refuted_pinned k fs). intros s R. apply H. exact R. Qed.
+Theorem pair_c15_mirror_refuted_pinned k fr fs : ~ C15_mirror (M_pair k false fr fs).
+Proof. intros H. apply (pair_c15_mirror_w_refuted_pinned k fr fs). intros s R. apply H. exact R. Qed.
 (* the flag-dependent form: [fx] = Gen.Consts.C08_PAIR0_STOP_WRITABLE_FIXED / C08_PAIR1_STOP_WRITABLE_FIXED *)
-Theorem pair_c15_mirror_by_flag (k : pkind) (fx fs : bool) :
-  if fx then C15_mirror (M_pair k true fs) else ~ C15_mirror (M_pair k false fs).
+Theorem pair_c15_mirror_by_flag (k : pkind) (fx fr fs : bool) :
+  if fx then C15_mirror (M_pair k true fr fs) else ~ C15_mirror (M_pair k false fr fs).
 Proof. destruct fx; [apply pair_c15_mirror|apply pair_c15_mirror_refuted_pinned]. Qed.
 (* the receive descriptor does not depend on that repair: C15_mirror_r for every flag value *)
-Lemma pair_rinv_step k fx fs s o :
+Lemma pair_rinv_step k fx fr fs s o :
   PairProofs.PInv s /\ PairProofs.RInv s -> pair_ok s o -> o <> PSockClose ->
-  PairProofs.PInv (fst (pair_step_g k fx fs s o)) /\ PairProofs.RInv (fst (pair_step_g k fx fs s o)).
+  PairProofs.PInv (fst (pair_step_g k fx fr fs s o)) /\ PairProofs.RInv (fst (pair_step_g k fx fr fs s o)).
 Proof.
-  intros (HI & HR) [Hok _] Hns. rewrite (PairGuardProofs.pair_step_g_contract k fx fs s o Hok).
-  destruct (pair_step k fx s o) as [s' outs] eqn:E. cbn [fst].
-  destruct (PairProofs.pair_step_law k fx _ _ _ _ HI Hok E) as [HI' _].
-  split; [exact HI'|exact (PairProofs.pair_readable_mirror k fx _ _ _ _ HI Hok Hns HR E)].
+  intros (HI & HR) [Hok _] Hns. rewrite (PairGuardProofs.pair_step_g_contract k fx fr fs s o Hok).
+  destruct (pair_step k fx fr s o) as [s' outs] eqn:E. cbn [fst].
+  destruct (PairProofs.pair_step_law k fx fr _ _ _ _ HI Hok E) as [HI' _].
+  split; [exact HI'|exact (PairProofs.pair_readable_mirror k fx fr _ _ _ _ HI Hok Hns HR E)].
 Qed.
-Lemma pair_rinv_run k fx fs ops : forall s, PairProofs.PInv s /\ PairProofs.RInv s ->
-  pops_ok (M_pair k fx fs) s ops ->
-  PairProofs.PInv (prun (M_pair k fx fs) s ops) /\ PairProofs.RInv (prun (M_pair k fx fs) s ops).
+Lemma pair_rinv_run k fx fr fs ops : forall s, PairProofs.PInv s /\ PairProofs.RInv s ->
+  pops_ok (M_pair k fx fr fs) s ops ->
+  PairProofs.PInv (prun (M_pair k fx fr fs) s ops) /\ PairProofs.RInv (prun (M_pair k fx fr fs) s ops).
 Proof.
   induction ops as [|o r IH]; intros s HI Hok; cbn [prun]; [exact HI|].
   cbn [pops_ok] in Hok. destruct Hok as (Ho & Hc & Hr). apply IH; [|exact Hr].
   unM M_pair. apply pair_rinv_step; auto.
 Qed.
-Theorem pair_c15_mirror_r_any k fx fs :
-  forall s, reachable (M_pair k fx fs) s -> mirror_r_exact_at (M_pair k fx fs) s /\ mirror_r_iff_at (M_pair k fx fs) s.
+Theorem pair_c15_mirror_r_any k fx fr fs :
+  forall s, reachable (M_pair k fx fr fs) s -> mirror_r_exact_at (M_pair k fx fr fs) s /\ mirror_r_iff_at (M_pair k fx fr fs) s.
 Proof.
   intros s (ops & Hok & <-).
-  destruct (pair_rinv_run k fx fs ops pair_init (conj (proj1 PairProofs.pair_init_inv) (proj1 (proj2 PairProofs.pair_init_inv))) Hok)
+  destruct (pair_rinv_run k fx fr fs ops pair_init (conj (proj1 PairProofs.pair_init_inv) (proj1 (proj2 PairProofs.pair_init_inv))) Hok)
     as [HI HR].
   split; [now apply pair_mirror_r_exact_R|now apply pair_mirror_r_iff_R].
 Qed.
-Theorem pair_c15_mirror_r k fx fs : C15_mirror_r (M_pair k fx fs).
+Theorem pair_c15_mirror_r k fx fr fs : C15_mirror_r (M_pair k fx fr fs).
 Proof. intros s R. apply mirror_r_exact_weaken. now apply pair_c15_mirror_r_any. Qed.
 
 (* ---- non-vacuity: reachable PAIR states with each descriptor raised and lowered (every kind) ---- *)
 Definition pair_rx_msg : pmsg := mkPmsg [] [0; 0; 0; 1; 9]%N.   (* hop count 1, one byte of payload *)
-Example pair_reachable_lowered k fx fs :
-  reachable (M_pair k fx fs) pair_init /\ pm_poll (M_pair k fx fs) pair_init = mkPoll (Some false) (Some false).
-Proof. split; [apply (reachable_init (M_pair k fx fs))|reflexivity]. Qed.
-Example pair_reachable_w_raised k fx fs :
-  exists s, reachable (M_pair k fx fs) s /\ poll_w (pm_poll (M_pair k fx fs) s) = Some true.
+Example pair_reachable_lowered k fx fr fs :
+  reachable (M_pair k fx fr fs) pair_init /\ pm_poll (M_pair k fx fr fs) pair_init = mkPoll (Some false) (Some false).
+Proof. split; [apply (reachable_init (M_pair k fx fr fs))|reflexivity]. Qed.
+Example pair_reachable_w_raised k fx fr fs :
+  exists s, reachable (M_pair k fx fr fs) s /\ poll_w (pm_poll (M_pair k fx fr fs) s) = Some true.
 Proof.
-  exists (prun (M_pair k fx fs) pair_init [PPipeStart 1%N (pair_peer k)]). split.
+  exists (prun (M_pair k fx fr fs) pair_init [PPipeStart 1%N (pair_peer k)]). split.
   - exists [PPipeStart 1%N (pair_peer k)]. split; [|reflexivity].
     destruct k as [|[]]; vm_compute; repeat split; try exact I; try discriminate; tauto.
   - destruct k as [|[]]; destruct fx, fs; reflexivity.
 Qed.
-Example pair_reachable_r_raised k fx fs :
-  exists s, reachable (M_pair k fx fs) s /\ poll_r (pm_poll (M_pair k fx fs) s) = Some true.
+Example pair_reachable_r_raised k fx fr fs :
+  exists s, reachable (M_pair k fx fr fs) s /\ poll_r (pm_poll (M_pair k fx fr fs) s) = Some true.
 Proof.
-  exists (prun (M_pair k fx fs) pair_init [PPipeStart 1%N (pair_peer k); PRecvDone 1%N 0%N pair_rx_msg]). split.
+  exists (prun (M_pair k fx fr fs) pair_init [PPipeStart 1%N (pair_peer k); PRecvDone 1%N 0%N pair_rx_msg]). split.
   - exists [PPipeStart 1%N (pair_peer k); PRecvDone 1%N 0%N pair_rx_msg]. split; [|reflexivity].
     destruct k as [|[]]; destruct fx, fs; vm_compute; repeat split; try exact I; try discriminate; tauto.
   - destruct k as [|[]]; destruct fx, fs; reflexivity.
 Qed.
 (* the initial state: descriptor lowered and the NONBLOCK send answers NNG_EAGAIN *)
-Example pair_init_eagain k fx fs :
-  rv_send (M_pair k fx fs) pair_init 7%N pair_wit_msg = Some E_AGAIN /\ pm_cls (M_pair k fx fs) pair_wit_msg = true.
+Example pair_init_eagain k fx fr fs :
+  rv_send (M_pair k fx fr fs) pair_init 7%N pair_wit_msg = Some E_AGAIN /\ pm_cls (M_pair k fx fr fs) pair_wit_msg = true.
 Proof. destruct k as [|[]]; vm_compute; auto. Qed.
 (* raw PAIRv1 refuses an ill-formed header with NNG_EPROTO although the descriptor is raised (outside the
    mirror clauses: pm_cls = false) *)
-Example pair_raw_eproto fx fs :
-  exists s, reachable (M_pair (K1 true) fx fs) s /\ poll_w (pm_poll (M_pair (K1 true) fx fs) s) = Some true /\
-    rv_send (M_pair (K1 true) fx fs) s 7%N (mkPmsg [] [1%N]) = Some E_PROTO /\ pm_cls (M_pair (K1 true) fx fs) (mkPmsg [] [1%N]) = false.
+Example pair_raw_eproto fx fr fs :
+  exists s, reachable (M_pair (K1 true) fx fr fs) s /\ poll_w (pm_poll (M_pair (K1 true) fx fr fs) s) = Some true /\
+    rv_send (M_pair (K1 true) fx fr fs) s 7%N (mkPmsg [] [1%N]) = Some E_PROTO /\ pm_cls (M_pair (K1 true) fx fr fs) (mkPmsg [] [1%N]) = false.
 Proof.
-  exists (prun (M_pair (K1 true) fx fs) pair_init [PPipeStart 1%N PROTO_PAIR1]). split; [|destruct fx, fs; vm_compute; auto].
+  exists (prun (M_pair (K1 true) fx fr fs) pair_init [PPipeStart 1%N PROTO_PAIR1]). split; [|destruct fx, fr, fs; vm_compute; auto].
   exists [PPipeStart 1%N PROTO_PAIR1]. split; [|reflexivity].
   vm_compute; repeat split; try exact I; try discriminate; tauto.
 Qed.
 
 (* ---- the packs whose step is what the model daemon of this property runs (PollModel.c15_*_step) ---- *)
 Lemma pair0_cur_step :
-  pm_step (M_pair K0 Gen.Consts.C08_PAIR0_STOP_WRITABLE_FIXED Gen.Consts.C08_PAIR0_STALE_FIXED) = c15_pair0_step.
+  pm_step (M_pair K0 Gen.Consts.C08_PAIR0_STOP_WRITABLE_FIXED Gen.Consts.C08_PAIR0_RESIZE_ADMITS_FIXED Gen.Consts.C08_PAIR0_STALE_FIXED) = c15_pair0_step.
 Proof. reflexivity. Qed.
 Lemma pair1_cur_step :
-  pm_step (M_pair (K1 false) Gen.Consts.C08_PAIR1_STOP_WRITABLE_FIXED Gen.Consts.C08_PAIR1_STALE_FIXED) = c15_pair1_step.
+  pm_step (M_pair (K1 false) Gen.Consts.C08_PAIR1_STOP_WRITABLE_FIXED Gen.Consts.C08_PAIR1_RESIZE_ADMITS_FIXED Gen.Consts.C08_PAIR1_STALE_FIXED) = c15_pair1_step.
 Proof. reflexivity. Qed.
 Lemma pair1raw_cur_step :
-  pm_step (M_pair (K1 true) Gen.Consts.C08_PAIR1_STOP_WRITABLE_FIXED Gen.Consts.C08_PAIR1_STALE_FIXED) = c15_pair1raw_step.
+  pm_step (M_pair (K1 true) Gen.Consts.C08_PAIR1_STOP_WRITABLE_FIXED Gen.Consts.C08_PAIR1_RESIZE_ADMITS_FIXED Gen.Consts.C08_PAIR1_STALE_FIXED) = c15_pair1raw_step.
 Proof. reflexivity. Qed.
 Lemma bus_cur_step raw :
   pm_step (M_bus Gen.Consts.BUS_SEND_NO_AIO_START Gen.Consts.C03_BUS_START_BEFORE_DETACH raw) = c15_bus_step.
